@@ -24,6 +24,8 @@ VERIF_MSGS = [
     ('cannot prove that call to function that might panic', 'panic-reachable'),
     ('recommendation not met', 'recommends'),
     ('possible out-of-bounds', 'index-bounds'),
+    ('index in bounds for this access', 'index-bounds'),
+    ('precondition not met', 'precondition'),
     ('constructed value may fail to meet its declared type invariant', 'type-invariant'),
 ]
 RESOURCE_MSGS = ['Resource limit (rlimit) exceeded', 'rlimit', 'timed out', 'timeout']
